@@ -83,7 +83,7 @@ def one_case(case):
     if res.status == "exc":
         return [sweeps.crash_violation(case, res, "arrays")], info
     n = G.number_of_nodes()
-    v = []
+    v = list(sweeps.args_violation(case, tabs))
     for cls, suffix, msg in history.wellformed(case, res.value, n) + history.ends_extinct(case, res.value):
         v.append(V(cls, "%s/%s" % (case["sim"], suffix), msg, case))
     try:
